@@ -40,10 +40,13 @@ func (n NativeAppendFn) Call(i *Interpreter, arguments []interface{}) (interface
 	if !ok {
 		return nil, fmt.Errorf("append function only works on arrays")
 	}
-	// Append all other arguments to the array
-	array = append(array, arguments[1:]...)
+	// Build a new array: appending in place could overwrite elements of an earlier result that shares
+	// the argument's backing store (two এড calls on the same array gave aliased results).
+	result := make([]interface{}, 0, len(array)+len(arguments)-1)
+	result = append(result, array...)
+	result = append(result, arguments[1:]...)
 
-	return array, nil
+	return result, nil
 }
 
 func (n NativeAppendFn) Arity() int {
@@ -78,10 +81,13 @@ func (n NativeRemoveFn) Call(i *Interpreter, arguments []interface{}) (interface
 		return nil, fmt.Errorf("array index out of bounds")
 	}
 
-	// Remove the element at the specified index
-	array = append(array[:index], array[index+1:]...)
+	// Build a new array without the element; the argument itself must not change
+	// (append(array[:index], ...) shifted the caller's elements in place).
+	result := make([]interface{}, 0, len(array)-1)
+	result = append(result, array[:index]...)
+	result = append(result, array[index+1:]...)
 
-	return array, nil
+	return result, nil
 }
 
 func (n NativeRemoveFn) Arity() int {
